@@ -7,6 +7,27 @@ ALPH = ''.join(chr(c) for c in range(33, 127) if chr(c) not in '.^\\ ')   # 90 d
 PREF = 5
 
 
+EXOTIC = ['\r', '\x0b', '\x0c', '\x1c', '\x1d', '\x1e', '\x85', '\u2028', '\u2029']
+
+
+def variant_text(text, sc, kind):
+    """Other characters, same shape: only "\n" is a line break, so index/line/column expectations do not change.
+    exotic: a character that str.splitlines() (but not the property) treats as a line boundary, before the error;
+    blanks: everything from the error index to the end of the text is blank."""
+    S = sc['P'] * (PREF + 1)
+    pos = sc['index']
+    if kind == 'exotic':
+        if sc['col'] < 3 or sc['atend']:
+            return None
+        k = S + (sc['col'] - 1) // 2
+        return text[:k] + EXOTIC[(sc['L'] + sc['col']) % len(EXOTIC)] + text[k + 1:]
+    if kind == 'blanks':
+        if not sc['last'] or sc['atend']:
+            return None
+        return text[:pos] + ' ' * (len(text) - pos)
+    return None
+
+
 def make_text(P, L, last):
     chars = []
     for _ in range(P):
@@ -38,8 +59,14 @@ def excerpt_worker(case):
         del text
         text = make_text(sc['P'], sc['L'], sc['last'])
         res = {}
-        for kind, g, t in (('ParseError', g_err, text), ('PartialParseError', g_part, text),
-                           ('bytes', g_bytes, text.encode('ascii'))):
+        runs = [('ParseError', g_err, text), ('PartialParseError', g_part, text), ('bytes', g_bytes, text.encode('ascii'))]
+        if (sc['L'] * 7 + sc['col']) % 5 == 0:
+            for vk in ('exotic', 'blanks'):
+                vt = variant_text(text, sc, vk)
+                if vt is not None:
+                    runs.append(('ParseError/' + vk, g_err, vt))
+                    runs.append(('PartialParseError/' + vk, g_part, vt))
+        for kind, g, t in runs:
             if kind == 'PartialParseError' and sc['atend']:
                 continue
             try:
@@ -118,12 +145,14 @@ def run(chk):
             text = make_text(sc['P'], sc['L'], sc['last'])
             pos = sc['index']
             regimes[sc['regime']] = regimes.get(sc['regime'], 0) + 1
-            for kind, o in res.items():
+            for kind, o in sorted(res.items(), key=lambda kv: '/' in kv[0]):
                 chk.traces += 1
                 chk.count([sc['P'], sc['L'], sc['col'], sc['last'], kind], not (pos == 0 and sc['P'] == 0))
                 where = '%s at offset %d (lines before %d, line length %d, column %d, last line %s)' % (
                     kind, pos, sc['P'], sc['L'], sc['col'], sc['last'])
-                want_cls = 'PartialParseError' if kind == 'PartialParseError' else 'ParseError'
+                want_cls = 'PartialParseError' if kind.startswith('PartialParseError') else 'ParseError'
+                if '/' in kind:
+                    text = variant_text(make_text(sc['P'], sc['L'], sc['last']), sc, kind.split('/')[1])
                 why = None
                 if o[0] != want_cls:
                     why = 'expected %s, observed %s' % (want_cls, o[:3])
